@@ -86,6 +86,18 @@ CHECKS = {
         "assumptions": COMMON_ASSUME,
         "design_ref": "DESIGN.md §5 C15",
     },
+    "C16": {
+        "level": "model_checking", "shards": 5, "deadline_quick": 100, "deadline_thorough": 1500,
+        "engine": "E-WORLD",
+        "technique": "explicit-state model checking of the implementation: BFS by replay around one real node (gossipsub, floodsub; map and time-cached blacklist) with the blacklisting call tried at every position of the peer's lifecycle",
+        "rule": WORLD_RULE,
+        "level_text": "every history up to the depth bound over the lifecycle of a bad peer and two bystanders (connect, blocked NewStream released later, subscribe, GRAFT, disconnect, reconnect), "
+                      "messages sent by it / authored by it and forwarded by a third party / unrelated, a message parked in gated asynchronous validation, with BlacklistPeer or a direct Add to the blacklist "
+                      "implementation tried at every point; deliveries, forwards, traffic towards the peer, queue/topic/mesh/fanout membership and refusal of later-completing streams are judged",
+        "level_note": "messages already inside the validation pipeline at the blacklisting moment are counted, not judged (DESIGN.md §5.1)",
+        "assumptions": COMMON_ASSUME,
+        "design_ref": "DESIGN.md §5 C16",
+    },
     "C17": {
         "level": "model_checking", "shards": 7, "deadline_quick": 100, "deadline_thorough": 1500,
         "engine": "E-SEQ (mcache) + E-WORLD",
